@@ -343,4 +343,324 @@ theorem mem_importsAbove {k : Nat} {evs : List ImportEvent} {ev : ImportEvent} :
   simp [importsAbove, List.mem_filter]
 
 
+/-! ### certificates -/
+
+/-- What phase A knows about a finished fold `f` of the component with path `P` while that
+component is still under construction (`T`: the tag table, `EV`: the import events passed up so
+far). "Defined in the parent component" is expressed through the tag table: a tag entry whose path
+is exactly `P`. -/
+structure FoldCert (P : List Vid) (T : List TagEntry) (EV : List ImportEvent) (f : Fold) : Prop where
+  impUsed : ∀ r ∈ f.imports, r ∈ tagsUsed f.component ∧ definedAt r < f.toVid ∧
+    ∃ e ∈ T, e.path = P ∧ e.field = r
+  usedImp : ∀ r ∈ tagsUsed f.component, ∃ e ∈ T, e.field = r ∧ (e.path = P → r ∈ f.imports)
+  inner6 : wfImportsC f.component = true
+  inner5 : ∀ chain, (∀ ev ∈ EV, ev.2 ∈ chain) → wfTagsC (f.imports ++ chain) f.component = true
+  post5 : ∀ r ∈ f.post.flatMap filterTags, definedAt r ≤ f.toVid ∧
+    ∃ e ∈ T, e.field = r ∧ (e.path = P ∨ (e.path.length, r) ∈ EV)
+
+theorem FoldCert.mono {P T EV f T' EV'} (h : FoldCert P T EV f) (hT : ∀ e ∈ T, e ∈ T')
+    (hE : ∀ ev ∈ EV, ev ∈ EV') : FoldCert P T' EV' f := by
+  refine ⟨?_, ?_, h.inner6, ?_, ?_⟩
+  · intro r hr
+    obtain ⟨h1, h2, e, he, h3⟩ := h.impUsed r hr
+    exact ⟨h1, h2, e, hT e he, h3⟩
+  · intro r hr
+    obtain ⟨e, he, h3⟩ := h.usedImp r hr
+    exact ⟨e, hT e he, h3⟩
+  · intro chain hc
+    exact h.inner5 chain (fun ev hev => hc ev (hE ev hev))
+  · intro r hr
+    obtain ⟨h1, e, he, h2, h3⟩ := h.post5 r hr
+    exact ⟨h1, e, hT e he, h2, h3.imp id (hE _)⟩
+
+/-- What the enclosing component needs to know about the tags used inside the folds collected so
+far and about the import events passed up. -/
+structure UsesUp (P : List Vid) (T : List TagEntry) (acc : Acc) : Prop where
+  u1 : ∀ r ∈ foldsTagsUsed acc.folds, ∃ e ∈ T, e.field = r ∧
+    (P <+: e.path ∨ (e.path <+: P ∧ e.path.length < P.length ∧ (e.path.length, r) ∈ acc.events))
+  u2 : ∀ ev ∈ acc.events, ev.1 < P.length ∧ ev.2 ∈ foldsTagsUsed acc.folds ∧
+    ∃ e ∈ T, e.field = ev.2 ∧ e.path.length = ev.1 ∧ e.path <+: P
+
+theorem UsesUp.append {P T a b} (ha : UsesUp P T a) (hb : UsesUp P T b) : UsesUp P T (a ++ b) := by
+  refine ⟨?_, ?_⟩
+  · intro r hr
+    simp only [Acc.append_folds, foldsTagsUsed_append, List.mem_append] at hr
+    simp only [Acc.append_events, List.mem_append]
+    rcases hr with hr | hr
+    · obtain ⟨e, he, h1, h2⟩ := ha.u1 r hr
+      exact ⟨e, he, h1, h2.imp id (fun ⟨x, y, z⟩ => ⟨x, y, Or.inl z⟩)⟩
+    · obtain ⟨e, he, h1, h2⟩ := hb.u1 r hr
+      exact ⟨e, he, h1, h2.imp id (fun ⟨x, y, z⟩ => ⟨x, y, Or.inr z⟩)⟩
+  · intro ev hev
+    simp only [Acc.append_events, List.mem_append] at hev
+    simp only [Acc.append_folds, foldsTagsUsed_append, List.mem_append]
+    rcases hev with hev | hev
+    · obtain ⟨h1, h2, h3⟩ := ha.u2 ev hev
+      exact ⟨h1, Or.inl h2, h3⟩
+    · obtain ⟨h1, h2, h3⟩ := hb.u2 ev hev
+      exact ⟨h1, Or.inr h2, h3⟩
+
+theorem UsesUp.mono {P T T' a} (h : UsesUp P T a) (hT : ∀ e ∈ T, e ∈ T') : UsesUp P T' a := by
+  refine ⟨?_, ?_⟩
+  · intro r hr
+    obtain ⟨e, he, h1⟩ := h.u1 r hr
+    exact ⟨e, hT e he, h1⟩
+  · intro ev hev
+    obtain ⟨h1, h2, e, he, h3⟩ := h.u2 ev hev
+    exact ⟨h1, h2, e, hT e he, h3⟩
+
+theorem UsesUp.trivial {P T} {a : Acc} (hf : a.folds = []) (he : a.events = []) : UsesUp P T a := by
+  refine ⟨?_, ?_⟩
+  · intro r hr; rw [hf] at hr; simp [foldsTagsUsed] at hr
+  · intro ev hev; rw [he] at hev; simp at hev
+
+/-- What is known about a finished component with path `Pc`, its tag table `T` and the import
+events `evs` it passes up. -/
+structure CompSpec (Pc : List Vid) (T : List TagEntry) (comp : Component)
+    (evs : List ImportEvent) : Prop where
+  U1 : ∀ r ∈ tagsUsed comp, ∃ e ∈ T, e.field = r ∧
+    (Pc <+: e.path ∨ (e.path <+: Pc ∧ e.path.length < Pc.length ∧ (e.path.length, r) ∈ evs))
+  U2 : ∀ ev ∈ evs, ev.1 < Pc.length ∧ ev.2 ∈ tagsUsed comp ∧
+    ∃ e ∈ T, e.field = ev.2 ∧ e.path.length = ev.1 ∧ e.path <+: Pc
+  U3 : ∀ chain, (∀ ev ∈ evs, ev.2 ∈ chain) → wfTagsC chain comp = true
+  U4 : wfImportsC comp = true
+
+/-! ### the Boolean clauses, fold by fold -/
+
+theorem wfImportsF_iff {pvs pfs} {l : List Fold} :
+    wfImportsF pvs pfs l = true ↔ ∀ f ∈ l,
+      (∀ r ∈ f.imports, r ∈ tagsUsed f.component ∧ definedIn pvs pfs r = true) ∧
+      (∀ r ∈ tagsUsed f.component, definedIn pvs pfs r = true → r ∈ f.imports) ∧
+      wfImportsC f.component = true := by
+  induction l with
+  | nil => simp [wfImportsF]
+  | cons f rest ih =>
+    cases f
+    simp only [wfImportsF, Bool.and_eq_true, List.all_eq_true, refMem_iff, Bool.or_eq_true,
+      Bool.not_eq_true', ih, List.mem_cons, forall_eq_or_imp, Fold.imports, Fold.component]
+    constructor
+    · rintro ⟨⟨⟨h1, h2⟩, h3⟩, h4⟩
+      refine ⟨⟨h1, ?_, h3⟩, h4⟩
+      intro r hr hd
+      rcases h2 r hr with h | h
+      · rw [hd] at h; simp at h
+      · exact h
+    · rintro ⟨⟨h1, h2, h3⟩, h4⟩
+      refine ⟨⟨⟨h1, ?_⟩, h3⟩, h4⟩
+      intro r hr
+      cases hd : definedIn pvs pfs r
+      · exact Or.inl rfl
+      · exact Or.inr (h2 r hr hd)
+
+theorem tagsOkAt_iff {vs fs chain uv filters} :
+    tagsOkAt vs fs chain uv filters = true ↔ ∀ r ∈ filters.flatMap filterTags,
+      definedAt r ≤ uv ∧ (definedIn vs fs r = true ∨ r ∈ chain) := by
+  simp only [tagsOkAt, List.all_eq_true, Bool.and_eq_true, decide_eq_true_eq, Bool.or_eq_true,
+    refMem_iff]
+
+theorem wfTagsF_iff {pvs pfs chain} {l : List Fold} :
+    wfTagsF pvs pfs chain l = true ↔ ∀ f ∈ l,
+      (∀ r ∈ f.post.flatMap filterTags, definedAt r ≤ f.toVid ∧
+        (definedIn pvs pfs r = true ∨ r ∈ chain)) ∧
+      (∀ r ∈ f.imports, definedIn pvs pfs r = true ∧ definedAt r ≤ f.toVid) ∧
+      wfTagsC (f.imports ++ chain) f.component = true := by
+  induction l with
+  | nil => simp [wfTagsF]
+  | cons f rest ih =>
+    cases f
+    simp only [wfTagsF, Bool.and_eq_true, tagsOkAt_iff, List.all_eq_true, decide_eq_true_eq, ih,
+      List.mem_cons, forall_eq_or_imp, Fold.imports, Fold.component, Fold.post, Fold.toVid]
+    constructor
+    · rintro ⟨⟨⟨h1, h2⟩, h3⟩, h4⟩; exact ⟨⟨h1, h2, h3⟩, h4⟩
+    · rintro ⟨⟨h1, h2, h3⟩, h4⟩; exact ⟨⟨⟨h1, h2⟩, h3⟩, h4⟩
+
+
+/-! ### finishing a component -/
+
+theorem definedIn_ctx {vs : List IRVertex} {fs : List Fold} {u : Vid} {n : Name} {t : QTy} :
+    definedIn vs fs (.ctx u n t) = true ↔ u ∈ vs.map (·.vid) := by
+  simp [definedIn, vertexVids]
+
+theorem definedIn_fcount {vs : List IRVertex} {fs : List Fold} {x : Eid} {root : Vid} :
+    definedIn vs fs (.fcount x root) = true ↔ ∃ f ∈ fs, f.eid = x ∧ f.toVid = root := by
+  simp [definedIn]
+
+/-- "the tag entry's path is the component's path" and "the tagged field is defined in the
+component" coincide on the tag table of a finished component. -/
+theorem defined_iff_path {Pc : List Vid} {v : Vid} {acc : Acc} {st0 st2 : St} {new : List TagEntry}
+    {vs : List IRVertex}
+    (hvs : vs.map (·.vid) = acc.verts.map (·.vid))
+    (hv : v ∈ acc.verts.map (·.vid))
+    (htags : st2.tags = st0.tags ++ new)
+    (hnew : ∀ e ∈ new, NewTag Pc v st0.nextVid st0.nextEid st2.nextVid st2.nextEid acc e)
+    (hold : ∀ e ∈ st0.tags, e.path ≠ Pc ∧ definedAt e.field < v ∧
+      ∀ x r, e.field = .fcount x r → x < st0.nextEid)
+    (hcnt : CountedN v st0.nextVid st0.nextEid st2.nextVid st2.nextEid acc)
+    (hvlt : v < st0.nextVid) :
+    ∀ e ∈ st2.tags, (e.path = Pc ↔ definedIn vs acc.folds e.field = true) := by
+  intro e he
+  rw [htags, List.mem_append] at he
+  rcases he with he | he
+  · -- an old entry: neither
+    obtain ⟨h1, h2, h3⟩ := hold e he
+    constructor
+    · intro h; exact absurd h h1
+    · intro hd
+      exfalso
+      cases hf : e.field with
+      | ctx u n t =>
+        rw [hf, definedIn_ctx, hvs] at hd
+        rw [hf] at h2
+        simp only [definedAt] at h2
+        have hc := hcnt.vids u
+        have : 0 < (accVids acc).count u :=
+          List.count_pos_iff.mpr (by simp only [accVids, List.mem_append]; exact Or.inl hd)
+        have hne : ¬ u = v := by nomega
+        simp only [hne, if_false, inRange] at hc
+        split at hc <;> nomega
+      | fcount x root =>
+        rw [hf, definedIn_fcount] at hd
+        obtain ⟨f, hfm, hfe, _⟩ := hd
+        have hx := h3 x root hf
+        have hc := hcnt.eids x
+        have : 0 < (accEids acc).count x :=
+          List.count_pos_iff.mpr (by
+            simp only [accEids, List.mem_append]; exact Or.inr (hfe ▸ eid_mem_foldsEids hfm))
+        simp only [inRange] at hc
+        split at hc <;> nomega
+  · -- a new entry
+    have hn := hnew e he
+    rcases hn.cls with ⟨hp, hd⟩ | ⟨hl, f, hfm, hd⟩
+    · refine ⟨fun _ => ?_, fun _ => hp⟩
+      cases hf : e.field with
+      | ctx u n t =>
+        rw [hf] at hd
+        rw [definedIn_ctx, hvs]
+        rcases hd with rfl | hd
+        · exact hv
+        · exact hd
+      | fcount x root =>
+        rw [hf] at hd
+        rw [definedIn_fcount]
+        exact hd
+    · constructor
+      · intro hp; rw [hp] at hl; exact absurd hl (Nat.lt_irrefl _)
+      · intro hdi
+        exfalso
+        cases hf : e.field with
+        | ctx u n t =>
+          rw [hf] at hd hdi
+          rw [definedIn_ctx, hvs] at hdi
+          simp only [DefInside] at hd
+          have hc := hcnt.vids u
+          have h1 : 0 < (acc.verts.map (·.vid)).count u := List.count_pos_iff.mpr hdi
+          have h2 : 0 < (foldsVids acc.folds).count u :=
+            List.count_pos_iff.mpr (mem_foldsVids hfm hd)
+          simp only [accVids, List.count_append] at hc
+          simp only [inRange] at hc
+          split at hc <;> split at hc <;> nomega
+        | fcount x root =>
+          rw [hf] at hd hdi
+          rw [definedIn_fcount] at hdi
+          obtain ⟨g, hgm, hge, _⟩ := hdi
+          simp only [DefInside] at hd
+          have h2 := count_foldsEids_two hgm hfm hge hd
+          have hc := hcnt.eids x
+          simp only [accEids, List.count_append] at hc
+          simp only [inRange] at hc
+          split at hc <;> nomega
+
+
+theorem tagsUsed_mk (root : Vid) (vs : List IRVertex) (es : List IREdge) (fs : List Fold)
+    (os : List OutputDef) : tagsUsed (.mk root vs es fs os) = vertsTags vs ++ foldsTagsUsed fs := rfl
+
+theorem compSpec_of_finish {Pc : List Vid} {v : Vid} {acc : Acc} {st0 st2 st3 : St}
+    {new : List TagEntry} {comp : Component} {evs : List ImportEvent}
+    (hv : v ∈ acc.verts.map (·.vid))
+    (htags : st2.tags = st0.tags ++ new)
+    (hnew : ∀ e ∈ new, NewTag Pc v st0.nextVid st0.nextEid st2.nextVid st2.nextEid acc e)
+    (hold : ∀ e ∈ st0.tags, e.path ≠ Pc ∧ definedAt e.field < v ∧
+      ∀ x r, e.field = .fcount x r → x < st0.nextEid)
+    (hcnt : CountedN v st0.nextVid st0.nextEid st2.nextVid st2.nextEid acc)
+    (hvlt : v < st0.nextVid)
+    (hcert : ∀ f ∈ acc.folds, FoldCert Pc st2.tags acc.events f)
+    (huses : UsesUp Pc st2.tags acc)
+    (hfin : finishComponent Pc v acc st2 = .ok (comp, evs, st3)) :
+    CompSpec Pc st3.tags comp evs := by
+  obtain ⟨vs, evB, hmk, rfl, rfl⟩ := finishComponent_inv hfin
+  obtain ⟨hcore, hvs⟩ := makeVertices_inv hmk
+  obtain ⟨hres, hraise⟩ := makeVertices_spec hmk
+  have hT : st3.tags = st2.tags := hcore.2.2.symm
+  rw [hT]
+  have hdef := defined_iff_path hvs hv htags hnew hold hcnt hvlt
+  refine ⟨?_, ?_, ?_, ?_⟩
+  · -- U1
+    intro r hr
+    rw [tagsUsed_mk, List.mem_append] at hr
+    rcases hr with hr | hr
+    · simp only [vertsTags, List.mem_flatMap] at hr
+      obtain ⟨w, hw, f, hf, hrf⟩ := hr
+      obtain ⟨e, he, h1, h2, _, h4⟩ := hres w hw r (List.mem_flatMap.mpr ⟨f, hf, hrf⟩)
+      refine ⟨e, he, h1, ?_⟩
+      by_cases hl : e.path.length = Pc.length
+      · left; rw [h2.eq_of_length hl]; exact List.prefix_refl _
+      · right
+        refine ⟨h2, by have := h2.length_le; omega, ?_⟩
+        rcases h4 with h4 | h4
+        · exact absurd h4 hl
+        · exact List.mem_append_right _ h4
+    · obtain ⟨e, he, h1, h2⟩ := huses.u1 r hr
+      exact ⟨e, he, h1, h2.imp id (fun ⟨a, b, c⟩ => ⟨a, b, List.mem_append_left _ c⟩)⟩
+  · -- U2
+    intro ev hev
+    rw [List.mem_append] at hev
+    rw [tagsUsed_mk]
+    rcases hev with hev | hev
+    · obtain ⟨h1, h2, h3⟩ := huses.u2 ev hev
+      exact ⟨h1, List.mem_append_right _ h2, h3⟩
+    · obtain ⟨e, he, rfl, h2, h3, h4⟩ := hraise ev hev
+      exact ⟨h3, List.mem_append_left _ h4, e, he, rfl, rfl, h2⟩
+  · -- U3
+    intro chain hchain
+    simp only [wfTagsC, Bool.and_eq_true, List.all_eq_true, tagsOkAt_iff, wfTagsF_iff]
+    constructor
+    · intro w hw r hr
+      obtain ⟨e, he, h1, h2, h3, h4⟩ := hres w hw r hr
+      refine ⟨h3, ?_⟩
+      by_cases hl : e.path.length = Pc.length
+      · left; rw [← h1]; exact (hdef e he).mp (h2.eq_of_length hl)
+      · right
+        rcases h4 with h4 | h4
+        · exact absurd h4 hl
+        · exact hchain _ (List.mem_append_right _ h4)
+    · intro f hf
+      have c := hcert f hf
+      refine ⟨?_, ?_, ?_⟩
+      · intro r hr
+        obtain ⟨h1, e, he, h2, h3⟩ := c.post5 r hr
+        refine ⟨h1, ?_⟩
+        rcases h3 with h3 | h3
+        · left; rw [← h2]; exact (hdef e he).mp h3
+        · right; exact hchain _ (List.mem_append_left _ h3)
+      · intro r hr
+        obtain ⟨_, h2, e, he, h3, h4⟩ := c.impUsed r hr
+        refine ⟨?_, Nat.le_of_lt h2⟩
+        rw [← h4]; exact (hdef e he).mp h3
+      · exact c.inner5 chain (fun ev hev => hchain ev (List.mem_append_left _ hev))
+  · -- U4
+    simp only [wfImportsC, wfImportsF_iff]
+    intro f hf
+    have c := hcert f hf
+    refine ⟨?_, ?_, c.inner6⟩
+    · intro r hr
+      obtain ⟨h1, _, e, he, h3, h4⟩ := c.impUsed r hr
+      refine ⟨h1, ?_⟩
+      rw [← h4]; exact (hdef e he).mp h3
+    · intro r hr hd
+      obtain ⟨e, he, h1, h2⟩ := c.usedImp r hr
+      apply h2
+      rw [← h1] at hd
+      exact (hdef e he).mpr hd
+
+
 end TF.Frontend
